@@ -61,8 +61,8 @@ For each change k ∈ {{1,2}} write into `{d}/_out/k/`:
 
 Verify everything yourself: demo fails with the change, passes on the clean tree, full suite
 passes with the change (the demo file must NOT be present in the tree while you run the suite).
-When done leave the worktree CLEAN (`git -C {d} checkout -- . && git -C {d} clean -fdq -e _out`),
-keeping only `_out/`. Final message: for each change a 3-line summary (what, where, how it manifests)
+When done leave the worktree CLEAN (`git -C {d} checkout -- . && git -C {d} clean -fdq -e _out -e TASK.md`),
+keeping only `_out/` and TASK.md. Final message: for each change a 3-line summary (what, where, how it manifests)
 and the verification results.
 """
 open(d + '/TASK.md', 'w').write(task)
